@@ -702,3 +702,68 @@ V('c10-local-cache-gets-reloader', 'C10', 'C10.R4', (C, '''    pub fn without_ho
         Self {
             #[cfg(feature = "hot-reloading")]
             reloader: HotReloader::make(&source),'''))
+
+AS = 'src/asset.rs'
+ER = 'src/error.rs'
+SM = 'src/source/mod.rs'
+K = 'src/key.rs'
+
+# ---- C03
+V('c03-reversed-extensions', 'C03', 'C03.R1', (AS, '''    for ext in T::EXTENSIONS {
+        match load_with_ext(ext) {''', '''    for ext in T::EXTENSIONS.iter().rev() {
+        match load_with_ext(ext) {'''))
+V('c03-last-ok-wins', 'C03', 'C03.R1', (AS, '''    let mut error = ErrorKind::NoDefaultValue;
+
+    for ext in T::EXTENSIONS {
+        match load_with_ext(ext) {
+            Err(err) => error = err.or(error),
+            Ok(asset) => return Ok(asset),
+        }
+    }
+
+    T::default_value(id, error.into())''', '''    let mut error = ErrorKind::NoDefaultValue;
+    let mut found = None;
+
+    for ext in T::EXTENSIONS {
+        match load_with_ext(ext) {
+            Err(err) => error = err.or(error),
+            Ok(asset) => found = Some(asset),
+        }
+    }
+
+    match found {
+        Some(asset) => Ok(asset),
+        None => T::default_value(id, error.into()),
+    }'''))
+V('c03-error-overwritten', 'C03', 'C03.R1', (AS, '''            Err(err) => error = err.or(error),''', '''            Err(err) => error = err,'''))
+V('c03-or-prefers-io', 'C03', 'C03.R2', (ER, '''            (Io(_), other @ Conversion(_)) => other,
+''', ''''''))
+V('c03-or-notfound-inverted', 'C03', 'C03.R2', (ER, '''if err.kind() == io::ErrorKind::NotFound => other,''', '''if err.kind() != io::ErrorKind::NotFound => other,'''))
+V('c03-or-conversion-replaced', 'C03', 'C03.R2', (ER, '''            (NoDefaultValue, other) => other,''', '''            (NoDefaultValue, other) | (Conversion(_), other @ Io(_)) => other,'''))
+V('c03-default-skipped', 'C03', 'C03.R3', (AS, '''    T::default_value(id, error.into())
+}''', '''    match error {
+        ErrorKind::Conversion(err) => Err(err),
+        error => T::default_value(id, error.into()),
+    }
+}'''))
+V('c03-error-names-other-id', 'C03', 'C03.R4', (K, '''                Err(err) => Err(Error::new(id, err)),''', '''                Err(err) => Err(Error::new(std::any::type_name::<T>().into(), err)),'''))
+V('c03-with-cow-trims', 'C03', 'C03.R5', (SM, '''            FileContent::Slice(b) => f(Cow::Borrowed(b)),''', '''            FileContent::Slice(b) => f(Cow::Borrowed(b.strip_suffix(b"\\n").unwrap_or(b))),'''))
+V('c03-wrong-ext-read', 'C03', 'C03.R1', (AS, '''            .read(id, ext)?''', '''            .read(id, T::EXTENSION)?'''))
+V('c03-benign-or-if-let', 'C03', 'silent', (ER, '''        match (self, other) {
+            (NoDefaultValue, other) => other,
+            (Io(_), other @ Conversion(_)) => other,
+            (Io(err), other @ Io(_)) if err.kind() == io::ErrorKind::NotFound => other,
+            (this, _) => this,
+        }''', '''        match (self, other) {
+            (NoDefaultValue, other) => other,
+            (this @ Conversion(_), _) => this,
+            (Io(_), other @ Conversion(_)) => other,
+            (Io(err), other @ Io(_)) => {
+                if err.kind() == io::ErrorKind::NotFound {
+                    other
+                } else {
+                    Io(err)
+                }
+            }
+            (this @ Io(_), NoDefaultValue) => this,
+        }'''))
